@@ -220,7 +220,8 @@ func (f *fixture) runCase(reqs []string, rng *rand.Rand, run int) []Event {
 			kinds[i] = "empty"
 		}
 	}
-	lazy := &lazyStream{stream: st, f: f, kinds: kinds, rng: rng, lastEnc: &lastEnc}
+	// every stream of the first 30 000, every tenth afterwards (a long enumeration must stay within the process's locked-memory limits)
+	lazy := &lazyStream{stream: st, f: f, kinds: kinds, rng: rng, lastEnc: &lastEnc, jumpy: run <= 30000 || run%10 == 0}
 	done := make(chan Event, 1)
 	go func() {
 		ev := Event{E: "eof", Run: run}
@@ -268,6 +269,7 @@ type lazyStream struct {
 	rng      *rand.Rand
 	lastEnc  **pb.DataRowRecord
 	consumed int
+	jumpy    bool // this stream sees the clock jump between its requests
 }
 
 func (l *lazyStream) Recv() (*pb.SessionRequest, error) {
@@ -280,8 +282,10 @@ func (l *lazyStream) Recv() (*pb.SessionRequest, error) {
 	if l.consumed >= len(l.kinds) {
 		return nil, io.EOF
 	}
-	if l.rng.Intn(4) == 0 {
-		// a long-lived stream: more than the key lifetime passes between two requests (the sidecar rotates keys underneath it)
+	if l.jumpy && l.rng.Intn(4) == 0 {
+		// a long-lived stream: more than the key lifetime passes between two requests (the sidecar rotates keys underneath it).
+		// Every jump leaves a system key and intermediate keys in the sidecar's caches for good (real locked pages): the number
+		// of jumps per driver process is capped so that a long run ends at a verdict, not at the mlock / mapping limits.
 		advanceClock(25 * 3600)
 	}
 	r := l.f.request(l.kinds[l.consumed], *l.lastEnc, l.rng)
@@ -295,11 +299,21 @@ var (
 	modelNow int64
 )
 
+const maxJumps = 60000 // (the first thorough run with unlimited jumps ran out of lockable memory after about 200 000)
+
+var jumps int
+
 func advanceClock(sec int64) {
 	clockMu.Lock()
+	defer clockMu.Unlock()
+	if sec > 0 {
+		if jumps >= maxJumps {
+			return
+		}
+		jumps++
+	}
 	modelNow += sec
 	vrt.SetModelTime(modelNow)
-	clockMu.Unlock()
 }
 
 // Replay runs TLC-generated request sequences; concurrent > 1 additionally runs seeded longer sequences on that many
